@@ -13,3 +13,9 @@ open Femio.C03
 #print axioms C03_file_roundtrip
 #print axioms C03_roundtrip
 #print axioms C03_cflux_both_merged
+#print axioms C03_history_fresh_any_cfg
+#print axioms C03_history_roundtrip
+#print axioms C03_history_property
+#print axioms C03_history_fresh
+#print axioms C03_history_poke_state
+#print axioms C03_history_counterexample_frame_writer
